@@ -498,6 +498,18 @@ theorem C11_old_deleteall_deadlock_witness :
   unfold Deadlock Stuck threadDone
   decide
 
+/-- `OrderedMap.Clone` must not iterate through `ForEach` while it holds the read lock: with a `Set`
+announcing its `Lock()` between two of the nested `RLock`s nobody can move any more. (`Clone` as it is
+— one `RLock` around a loop that reads the chain directly — is `methodScript (.clone n)`, well formed.) -/
+theorem C11_clone_reentrant_deadlock_witness :
+    let c0 : Cfg Locks Th := (Locks.init, [Th.start (cloneReentrant 2), Th.start (methodScript .mapSet)])
+    let c := runSched lockSys c0 [(0, 0), (1, 0)]
+    Reach lockSys c0 c ∧ Deadlock lockSys threadDone c ∧ ¬ WF .none .none (cloneReentrant 2) ∧
+    WF .none .none (methodScript (.clone 2)) := by
+  refine ⟨runSched_reach _ _ _, ?_, by decide, by decide⟩
+  unfold Deadlock Stuck threadDone
+  decide
+
 /-! ## concurrency: Apply/Compute/Replace are atomic w.r.t. each other -/
 
 /-- **Mutual exclusion on `applyMutex`.**  In every reachable configuration of any pool of well-formed
@@ -626,5 +638,27 @@ open Hive.Gen.C11Skel in
 theorem C11_skeleton_OrderedMap_ForEachReverse : skel_OrderedMap_ForEachReverse =
     ["if{", "return", "}if", "rlock o.mutex", "runlock o.mutex", "for{", "if{", "return", "}if",
       "rlock o.mutex", "runlock o.mutex", "}for", "return"] := by decide
+
+/-! `Clone` holds `mutex.RLock` over a plain `for` loop that only calls `Set` on the new map: no method of the
+receiver (in particular not `ForEach`) is called while the lock is held. -/
+open Hive.Gen.C11Skel in
+theorem C11_skeleton_OrderedMap_Clone : skel_OrderedMap_Clone =
+    ["if{", "return", "}if", "rlock o.mutex", "defer runlock o.mutex", "for{", "call cloned.Set", "}for", "return"] := by decide
+
+open Hive.Gen.C11Skel in
+theorem C11_skeleton_OrderedMap_Head : skel_OrderedMap_Head =
+    ["rlock o.mutex", "defer runlock o.mutex", "if{", "return", "}if", "return"] := by decide
+
+open Hive.Gen.C11Skel in
+theorem C11_skeleton_OrderedMap_Tail : skel_OrderedMap_Tail =
+    ["rlock o.mutex", "defer runlock o.mutex", "if{", "return", "}if", "return"] := by decide
+
+open Hive.Gen.C11Skel in
+theorem C11_skeleton_OrderedMap_Size : skel_OrderedMap_Size =
+    ["if{", "return", "}if", "rlock o.mutex", "defer runlock o.mutex", "return"] := by decide
+
+open Hive.Gen.C11Skel in
+theorem C11_skeleton_OrderedMap_IsEmpty : skel_OrderedMap_IsEmpty =
+    ["call o.Size", "return"] := by decide
 
 end Hive.OMap
